@@ -25,8 +25,9 @@ LEVEL = ('decides code-shape clauses of the FlatZinc front-end: no index is used
          'nogood deletion, decision read-back, no-learning resolver, constraint builders, reified '
          'reasons — wherever they are not already registered here under another id. Merge order of '
          'equal variables and the J5/O1/O4 shares (F16, F17). Alias merging is followed through helper'
-         ' functions (F16). Does not decide the meaning of each decomposition, search annotations or '
-         'output projection')
+         ' functions (F16). Every clause of set_in_reif is posted inside an arm of the match on the '
+         'set (F18). Does not decide the meaning of each decomposition, search annotations or output '
+         'projection')
 TECHNIQUE = "static analysis: table recovery from the name match, stale-index / cast / arity / divisor-guard rules over rustc MIR"
 
 WIDTH = {"i8": 8, "u8": 8, "i16": 16, "u16": 16, "i32": 32, "u32": 32, "i64": 64, "u64": 64,
